@@ -127,7 +127,7 @@ Theorem C04_ethereum_full : C04_full SVC_ETHEREUM.
 Proof. exact ethereum_run. Qed.
 
 (* the programs behind these statements are persistent-reader programs *)
-Theorem C04_memcached_persistent : forall udp fuel, persistent (memcached_prog udp fuel).
+Theorem C04_memcached_persistent : forall fuel lim, persistent (memcached_prog lim fuel).
 Proof. exact memcached_persistent. Qed.
 
 Theorem C04_http_persistent : forall cfg fuel, persistent (http_prog cfg false fuel).
@@ -185,6 +185,41 @@ Proof. exact memcached_udp_datagram. Qed.
 
 Theorem C04_dns_each_datagram : C04_full_datagram SVC_DNS.
 Proof. exact dns_datagram. Qed.
+
+
+Theorem C04_snmp_each_datagram : C04_full_datagram SVC_SNMP.
+Proof. exact snmp_datagram. Qed.
+
+(* ---- the reply limiter must not decide what is reported: sequences from ONE source ---- *)
+(* counterstrike, snmp (limiter asked after the report) and dns (no limiter): for ALL datagram
+   sequences and ALL token counts the events are those of the datagrams *)
+Theorem C04_reports_independent_of_limiter : forall svc,
+  svc <> SVC_TFTP -> svc <> SVC_MEMCACHED_UDP ->
+  (forall d, run_impl svc [d] = expected svc d) ->
+  forall ds t, udp_seq svc t ds = udp_seq_expected svc ds.
+Proof. exact udp_seq_independent. Qed.
+
+(* tftp asks the limiter BEFORE decoding: every datagram within the budget is reported ... *)
+Theorem C04_tftp_within_budget : forall ds t,
+  length ds <= t -> udp_seq SVC_TFTP t ds = udp_seq_expected SVC_TFTP ds.
+Proof. exact tftp_within_budget. Qed.
+
+(* ... and beyond it none is (defect); memcached stops reporting inside a datagram (defect) *)
+Theorem C04_tftp_limiter_refuted :
+  let ds := [W_RRQ 1; W_RRQ 2; W_RRQ 3; W_RRQ 4; W_RRQ 5] in
+  length (fst (udp_seq SVC_TFTP LIMITER_BURST ds)) = 4 /\ length (fst (udp_seq_expected SVC_TFTP ds)) = 5.
+Proof. exact tftp_limiter_refuted. Qed.
+
+Theorem C04_memcached_limiter_refuted :
+  length (fst (udp_seq SVC_MEMCACHED_UDP LIMITER_BURST [W_MC_UDP; W_MC_UDP; W_MC_UDP])) = 5 /\
+  length (fst (udp_seq_expected SVC_MEMCACHED_UDP [W_MC_UDP; W_MC_UDP; W_MC_UDP])) = 6.
+Proof. exact memcached_limiter_refuted. Qed.
+
+(* chunked request bodies are read through the same persistent reader (C04_http_persistent
+   covers them): the decoder itself only asks for lines and exact counts *)
+Theorem C04_chunked_body_persistent : forall fuel acc k,
+  (forall r, persistent (k r)) -> persistent (chunk_body fuel acc k).
+Proof. exact chunk_body_persistent. Qed.
 
 (* ---- non-vacuity: the former defect witnesses now read correctly in every segmentation shown ---- *)
 Example C04_ftp_nonvacuous :
@@ -285,3 +320,9 @@ Print Assumptions C04_telnet_full.
 Print Assumptions C04_telnet_segmentation_invariant.
 Print Assumptions C04_telnet_text_line_one_event.
 Print Assumptions C04_redis_commands_parsed_exactly.
+Print Assumptions C04_snmp_each_datagram.
+Print Assumptions C04_reports_independent_of_limiter.
+Print Assumptions C04_tftp_within_budget.
+Print Assumptions C04_tftp_limiter_refuted.
+Print Assumptions C04_memcached_limiter_refuted.
+Print Assumptions C04_chunked_body_persistent.
